@@ -82,16 +82,17 @@ fn main() {
         }
         "c05-one" => props::c05::replay_one(&arg(&args, "--fen").unwrap(), arg(&args, "--depth").unwrap().parse().unwrap(), arg(&args, "--mode").as_deref() == Some("fixed")),
         "c06" => {
-            props::c0607::run("C06", &tier, seed, &out);
+            props::c0607::run("C06", &tier, seed, &out, None);
             0
         }
         "c07" => {
-            props::c0607::run("C07", &tier, seed, &out);
+            props::c0607::run("C07", &tier, seed, &out, arg(&args, "--engine-plain").as_deref());
             0
         }
         "c06-one" => props::c0607::replay_one("C06", &arg(&args, "--fen").unwrap(), arg(&args, "--depth").unwrap().parse().unwrap(), &arg(&args, "--at").unwrap(), arg(&args, "--final-depth").and_then(|x| x.parse().ok())),
         "c07-one" => props::c0607::replay_one("C07", &arg(&args, "--fen").unwrap(), arg(&args, "--depth").unwrap().parse().unwrap(), &arg(&args, "--at").unwrap(), None),
         "c06-history" => props::c0607::replay_history(&arg(&args, "--fen").unwrap(), arg(&args, "--depth").unwrap().parse().unwrap(), arg(&args, "--at").unwrap().parse().unwrap()),
+        "c07-real" => props::c0607::replay_real(&engine_plain(&args), &arg(&args, "--prior").unwrap_or_default(), &arg(&args, "--target").unwrap(), &arg(&args, "--go").unwrap(), arg(&args, "--budget").unwrap().parse().unwrap()),
         "c07-go" => props::c0607::replay_go(&arg(&args, "--cmds").unwrap()),
         "c10" => {
             props::c10::run(&tier, seed, &out);
@@ -156,6 +157,9 @@ fn main() {
             let exe = if which == "hooks on" { engine_hooks(&args) } else { engine_plain(&args) };
             props::c16::replay(&arg(&args, "--input").unwrap_or_default(), arg(&args, "--final-newline").as_deref() != Some("no"), &exe, &which)
         }
+        "c01-hist" => posprops::replay_hist(Which::C01, &arg(&args, "--fens").unwrap()),
+        "c02-hist" => posprops::replay_hist(Which::C02, &arg(&args, "--fens").unwrap()),
+        "c17-hist" => posprops::replay_hist(Which::C17, &arg(&args, "--fens").unwrap()),
         "c01-one" => posprops::replay_one(Which::C01, &arg(&args, "--fen").unwrap()),
         "c02-one" => posprops::replay_one(Which::C02, &arg(&args, "--fen").unwrap()),
         "c17-trace-one" => posprops::replay_trace_one(&arg(&args, "--fen").unwrap()),
